@@ -697,7 +697,7 @@ class ReactionSystem(object):
                 if k not in result:
                     result[k] = v
                 else:
-                    result[k] += v
+                    result[k] = result[k] + v  # not in-place: integer magnitudes
         if cstr_fr_fc:
             fr_key, fc = cstr_fr_fc
             for sk, fck in fc.items():
